@@ -18,6 +18,9 @@ TECHNIQUE = "static analysis: abstract evaluation of the rerun formatter on stat
 
 
 def run(chk, ix, tier):
+    # row scenarios are built once and keep their state (status, skip marks): build_scenarios clears every table's modified mark
+    from .. import rules_outline
+    rules_outline.check_build_order(chk, ix)
     rules_rerun.check_collect(chk, ix)
     rules_rerun.check_close(chk, ix)
     rules_rerun.check_format_agreement(chk, ix)
@@ -26,5 +29,5 @@ def run(chk, ix, tier):
     rules_location.check_add_location_and_clear(chk, ix)
     rules_location.check_walk_scenarios(chk, ix, "L10")
     rules_rerun.check_outfile_mode(chk, ix)
-    for r, n in (("Q1", 6), ("Q3", 8), ("Q4", 6), ("Q5", 3), ("L4", 6), ("L8", 3), ("L10", 3), ("Q6", 1)):
+    for r, n in (("B1", 1), ("B4", 1), ("Q1", 6), ("Q3", 8), ("Q4", 6), ("Q5", 3), ("L4", 6), ("L8", 3), ("L10", 3), ("Q6", 1)):
         chk.require_instances(r, n)
